@@ -701,11 +701,17 @@ func canonInfo(i vmap) vmap {
 
 var errorStringName = hex.EncodeToString([]byte("*errors.errorString"))
 
-// what the property promises for a task error: recognised kinds come back EQUAL,
-// any other error keeps its text
+// what the property promises for a task error ("by kind or equality"): NotLeaderError,
+// plainError and temporaryError come back EQUAL; InProgressError keeps its kind and carries
+// Error() = "raft: another "+s+" in progress" as its text (recoverable); any other error
+// keeps its text as an *errors.errorString
 func canonTaskErr(e vmap) vmap {
-	if e["kind"] == "other" {
+	switch e["kind"] {
+	case "other":
 		return vmap{"kind": "other", "typeName": errorStringName, "text": e["text"]}
+	case "inProgress":
+		s := unhex(e["s"].(string))
+		return vmap{"kind": "inProgress", "s": hex.EncodeToString([]byte("raft: another " + string(s) + " in progress"))}
 	}
 	return e
 }
@@ -998,12 +1004,10 @@ func runValue(c Case, d *driver, res *result) {
 		}
 		got := real["value"]
 		if real["err"] != nil || !reflect.DeepEqual(got, want) || real["consumed"] != float64(len(b)) {
-			key, note := "", "decode(encode x) != canon x on the real code"
-			if isInProgressCase(kind, x) {
-				key = "taskresp-inprogress-rewrapped"
-				note = "InProgressError(s) is sent as s.Error() and comes back as InProgressError(\"raft: another \"+s+\" in progress\")"
-			}
-			res.differ(c, "property-roundtrip", vmap{"decoded": real, "len": len(b)}, vmap{"expected": want}, true, key, note)
+			res.differ(c, "property-roundtrip", vmap{"decoded": real, "len": len(b)}, vmap{"expected": want}, true, "", "decode(encode x) != canon x on the real code")
+		}
+		if isInProgressCase(kind, x) {
+			res.h("taskresp/inprogress-rewrapped") // kind kept, text wrapped by Error(): allowed by the property
 		}
 	}
 
@@ -1101,13 +1105,10 @@ func runValueFile(c Case, d *driver, res *result) {
 	outcome := "ok"
 	if rerr != nil || ra != a || rb != b {
 		outcome = "lost"
-		key, note := "", "value file did not read back what was written"
-		if a >= 1<<63 || b >= 1<<63 {
-			key = "valuefile-ge-2^63"
-			note = "openValue parses with strconv.ParseInt: values >= 2^63 written by %d cannot be read back"
-		}
 		res.evals++
-		res.differ(c, "property-valuefile", real, vmap{"written": vmap{"a": c.A, "b": c.B}, "model_fixed": ans["fixed"]}, true, key, note)
+		res.differ(c, "property-valuefile", real, vmap{"written": vmap{"a": c.A, "b": c.B}}, true, "", "value file did not read back what was written")
+	} else if a >= 1<<63 || b >= 1<<63 {
+		res.h("valuefile/ge-2^63-ok") // regression for the repaired ParseInt defect
 	}
 	res.h("valuefile/" + outcome)
 	cls := func(v uint64) string {
@@ -1452,7 +1453,7 @@ func main() {
 	reportPath := flag.String("report", "", "report.json path")
 	replay := flag.String("replay", "", "replay a single case file")
 	props := flag.String("props", "", "comma separated property ids (this engine serves C18)")
-	workers := flag.Int("workers", 0, "parallel workers (each with its own driver process)")
+	workers := flag.Int("workers", 0, "parallel workers, each with its own driver process (default 8)")
 	inflight := flag.Int("inflight", 4, "cases in flight per driver process")
 	perType := flag.Int("n", 0, "values per type (overrides the tier)")
 	allow := flag.String("allow", "", "comma separated finding keys that do not affect the exit code")
@@ -1479,7 +1480,7 @@ func main() {
 			raft.VerifTempDir = "/dev/shm"
 		}
 	}
-	p := plan{perType: 20000}
+	p := plan{perType: 10000}
 	if *tier == "thorough" {
 		p.perType = 500000
 	}
@@ -1487,9 +1488,9 @@ func main() {
 		p.perType = *perType
 	}
 	if *workers <= 0 {
-		*workers = runtime.NumCPU()
-		if *workers > 16 {
-			*workers = 16
+		*workers = 8
+		if n := runtime.NumCPU(); n < *workers {
+			*workers = n
 		}
 	}
 	st := &stats{histogram: map[string]int{}, keys: map[string]bool{}, counts: map[string]int{}, replayBase: *reportPath}
@@ -1581,10 +1582,10 @@ func main() {
 		"disagreements": st.disagreements, "disagreement_counts": st.counts,
 		"wall_s": time.Since(start).Seconds(), "slowest_cases": st.slowest,
 	}
-	if rep["samples"] == nil {
+	if len(st.samples) == 0 {
 		rep["samples"] = []interface{}{}
 	}
-	if rep["disagreements"] == nil {
+	if len(st.disagreements) == 0 {
 		rep["disagreements"] = []Disagreement{}
 	}
 	out, err := json.MarshalIndent(rep, "", " ")
